@@ -59,6 +59,8 @@ pub enum HEv {
     StoreOpen { generation: u32, ok: bool },
     DropBegin { generation: u32 },
     DropEnd { generation: u32, clean: bool },
+    /// contender scenario (C13): who, what (attempt / ok / err:<class> / dropbegin / dropend)
+    Contender { who: u8, what: String },
     ThreadEnter(u8),
     ThreadExit(u8),
     Note(String),
@@ -144,6 +146,7 @@ pub struct Th {
     pub idle_epoch: Option<u64>,
     pub name: String,
     pub is_worker: bool,
+    pub os_id: Option<std::thread::ThreadId>,
 }
 
 pub struct FdInfo {
@@ -475,7 +478,7 @@ fn spawn_slot(name_hint: Option<String>, is_worker: bool) -> u64 {
             format!("W{n}")
         }
     };
-    st.threads.push(Th { alive: true, parked: false, idle_epoch: None, name, is_worker });
+    st.threads.push(Th { alive: true, parked: false, idle_epoch: None, name, is_worker, os_id: None });
     id as u64
 }
 
@@ -500,6 +503,7 @@ fn thread_enter_impl(child: u64) {
     let s = sim();
     let mut st = lock();
     st.trace.push(Ev::H(HEv::ThreadEnter(me as u8)));
+    st.threads[me].os_id = Some(std::thread::current().id());
     st.threads[me].parked = true;
     s.cv.notify_all();
     while st.current != me {
@@ -533,11 +537,26 @@ impl raft_log::verif_hooks::Hooks for H {
         sim().yield_point(site)
     }
     fn blocked(&self, site: &'static str) {
-        if site == "join_worker" {
-            // the joiner has just closed the request channel: that is progress the worker must see
-            sim().progress();
-        }
         sim().blocked(site);
+    }
+    fn join_wait(&self, thread: std::thread::ThreadId) {
+        // deterministic: depends only on simulated state (the joined thread's exit), never on
+        // when the OS thread really terminates
+        loop {
+            {
+                let st = lock();
+                if !st.active {
+                    return;
+                }
+                match st.threads.iter().find(|t| t.os_id == Some(thread)) {
+                    Some(t) if t.alive => {}
+                    _ => return,
+                }
+            }
+            // the joiner has just closed the request channel: progress the worker must see
+            sim().progress();
+            sim().blocked("join_worker");
+        }
     }
     fn spawn_begin(&self) -> u64 {
         spawn_slot(None, true)
@@ -623,7 +642,7 @@ pub fn begin(cfg: EpisodeCfg) {
     st.chooser = cfg.chooser;
     st.faults = cfg.faults;
     st.flush_batch = cfg.flush_batch;
-    st.threads.push(Th { alive: true, parked: false, idle_epoch: None, name: "T0".into(), is_worker: false });
+    st.threads.push(Th { alive: true, parked: false, idle_epoch: None, name: "T0".into(), is_worker: false, os_id: None });
     st.current = 0;
     drop(st);
     TID.with(|t| t.set(Some(0)));
